@@ -110,7 +110,11 @@ func (d *dumpStruct) loopHandleKV(s reflect.StructField, tv reflect.Value, isNee
 	case reflect.Uint, reflect.Uint8, reflect.Uint16, reflect.Uint32, reflect.Uint64, reflect.Uintptr:
 		d.buf.Write(strconv.AppendUint(d.numBytes[:0], tv.Uint(), 10))
 	case reflect.Float32, reflect.Float64:
-		d.buf.Write(strconv.AppendFloat(d.numBytes[:0], tv.Float(), 'f', -1, 64))
+		bitSize := 64
+		if tv.Kind() == reflect.Float32 { // float32 按 32 位精度格式化, 否则 0.1 会输出为 0.10000000149011612
+			bitSize = 32
+		}
+		d.buf.Write(strconv.AppendFloat(d.numBytes[:0], tv.Float(), 'f', -1, bitSize))
 	case reflect.Ptr, reflect.Struct, reflect.Interface:
 		d.HandleDumpStruct(tv)
 	case reflect.Slice, reflect.Array: // 切片
